@@ -27,7 +27,10 @@ RULE = ("op sequences (value, error, call, is_computed, set_value, set_error, re
         "flush body, on an item left to BatchBase._computed's loop, on the batch); plus the BATCH family (KBatch): a "
         "BatchBase with 1..4 BatchItemBase items as futures, scripted subscribers on each, a flush body that sets / "
         "forgets / sets twice each item and returns or raises, ops on the batch (reads, set_value, set_error, flush, "
-        "cancel, subscribe) and reads on items")
+        "cancel, subscribe) and reads on items; plus the PROVIDER-CLASS dimension: every raise of a provider / task body / "
+        "flush body raises one of the 17 Exception classes, or the computation is the second resolver of a promise shared "
+        "with another lazy resolver (genuine FutureIsAlreadyComputed about that other future) - drawn for every raise of "
+        "all families and swept: 18 x (Future/AsyncTask x first accessor value/error/call, scheduled-task body, flush body)")
 TRUSTED = ["qcore.events.EventHook subscribe/unsubscribe/safe_trigger are modelled as list append / remove-first / a loop "
            "over a copy of the handler list (Futures.notify); qcore.errors.reraise is exercised, not modelled"]
 ASSUMPTIONS = ["callbacks raise only Exception subclasses - of any class (BaseException from a callback is outside the statement)",
@@ -43,6 +46,11 @@ KINDS = ["KLazy", "KLazy", "KLazy", "KTask", "KTask", "KPlain", "KConst", "KErro
 XCLASSES = ["XUser", "XAssertion", "XAssertionSub", "XValue", "XKey", "XIndex", "XType", "XAttribute", "XZeroDivision",
             "XOSError", "XRuntime", "XNotImplemented", "XStopIteration", "XAlreadyComputed", "XBatching",
             "XBatchCancelled", "XCustom"]
+
+
+def _PR(n, cls="XUser"):
+    """a provider / body / flush body that raises the Exception instance n of class cls"""
+    return {"PRaise": [cls, n]}
 
 
 def _R(cls="XUser"):
@@ -74,7 +82,7 @@ def gen_case(rng, malformed):
         if r < 0.55:
             prov.append({"PRet": [_val(rng)]})
         elif r < 0.92:
-            prov.append({"PRaise": [rng.randrange(1, 60)]})
+            prov.append(_PR(rng.randrange(1, 60)))
         else:
             prov.append({"PBase": [rng.randrange(60, 90)]})
     o0 = {"Ok": [_val(rng)]} if kind != "KError" else {"Err": [rng.randrange(100, 130)]}
@@ -159,7 +167,7 @@ def gen_reent(rng):
     prov = []
     for _ in range(rng.choice([1, 2, 3, 4])):
         r = rng.random()
-        prov.append({"PRet": [_val(rng)]} if r < 0.6 else {"PRaise": [rng.randrange(1, 60)]} if r < 0.95 else {"PBase": [rng.randrange(60, 90)]})
+        prov.append({"PRet": [_val(rng)]} if r < 0.6 else _PR(rng.randrange(1, 60)) if r < 0.95 else {"PBase": [rng.randrange(60, 90)]})
     o0 = {"Ok": [_val(rng)]} if kind != "KError" else {"Err": [rng.randrange(100, 130)]}
     ops = []
     nsub = 0
@@ -271,7 +279,7 @@ def gen_susp(rng, malformed, reent=False):
         dep = {"Ok": [_val(rng)]} if rng.random() < 0.8 else {"Err": [rng.randrange(500, 540)]}
         phases.append({"mkphase": [rng.choice(["ViaFuture", "ViaBatch"]), _cleanup(rng), inner, dep]})
     r = rng.random()
-    fin = {"PRet": [_val(rng)]} if r < 0.6 else {"PRaise": [rng.randrange(1, 60)]} if r < 0.92 else {"PBase": [rng.randrange(60, 90)]}
+    fin = {"PRet": [_val(rng)]} if r < 0.6 else _PR(rng.randrange(1, 60)) if r < 0.92 else {"PBase": [rng.randrange(60, 90)]}
     return {"args": ["KSusp", phases, fin, ops], "meta": {"malformed": malformed, "reentrant": reent}}
 
 
@@ -294,10 +302,22 @@ def _map_ops(ops, prefix, f):
             if isinstance(o, dict) and prefix + "Subscribe" in o else o for o in ops]
 
 
-def _map_case(c, f):
+def _map_pout(po, g):
+    if isinstance(po, dict) and "PRaise" in po:
+        return {"PRaise": [g(po["PRaise"][0]), po["PRaise"][1]]}
+    return po
+
+
+def _map_case(c, f, g=None):
     """The same case with the Exception class of every raising subscriber (top-level and inner) mapped by f
-    (model: TaskFutProofs.recls_case)."""
+    (model: TaskFutProofs.recls_case) and, if given, the class of every raise of the provider / body / flush body
+    mapped by g (model: TaskFutProofs.precls_case)."""
     kind, a1, a2, ops = c["args"]
+    if g is not None:
+        if kind in ("KSusp", "KBatch"):
+            a2 = _map_pout(a2, g)
+        else:
+            a1 = [_map_pout(po, g) for po in a1]
     if kind == "KBatch":
         a1 = [{"": [[{"": [sb[""][0], _map_beh(sb[""][1], f)]} for sb in sp[""][0]], sp[""][1]]} for sp in a1]
         ops = [{"BOn": [o["BOn"][0], _map_ops([o["BOn"][1]], "O", f)[0]]} if isinstance(o, dict) and "BOn" in o else o for o in ops]
@@ -325,9 +345,9 @@ def _xcls_plain(rng, kind, path, cls):
             k = "CbOk" if r < 0.55 else _R(_xcls(rng)) if r < 0.8 else {"CbUnsub": [i + 1]}
         ops.append({"OSubscribe": [i + 1, k]})
     ok = rng.random() < 0.7
-    prov = [{"PRet": [_val(rng)]} if ok else {"PRaise": [rng.randrange(1, 60)]}]
+    prov = [{"PRet": [_val(rng)]} if ok else _PR(rng.randrange(1, 60))]
     if rng.random() < 0.3:
-        prov.append({"PRet": [_val(rng)]} if rng.random() < 0.5 else {"PRaise": [rng.randrange(1, 60)]})
+        prov.append({"PRet": [_val(rng)]} if rng.random() < 0.5 else _PR(rng.randrange(1, 60)))
 
     def completion(p):
         if p == "OSetValue":
@@ -384,7 +404,7 @@ def _xcls_susp(rng, path, cls):
     phases = [{"mkphase": [via, clean, inner, dep]}]
     if rng.random() < 0.25:
         phases.append({"mkphase": [rng.choice(["ViaFuture", "ViaBatch"]), "CleanOk", [], {"Ok": [_val(rng)]}]})
-    fin = {"PRaise": [rng.randrange(1, 60)]} if path == "body-raise" else {"PRet": [_val(rng)]}
+    fin = _PR(rng.randrange(1, 60)) if path == "body-raise" else {"PRet": [_val(rng)]}
     if path == "top-set-value":
         ops.append({"OSetValue": [_val(rng)]})
     elif path == "top-set-error":
@@ -452,7 +472,7 @@ def gen_batch(rng):
         acts = [] if r < 0.22 else [_outc(rng)] if r < 0.87 else [_outc(rng), _outc(rng)]
         items.append({"": [subs, acts]})
     r = rng.random()
-    fin = {"PRet": [_val(rng)]} if r < 0.65 else {"PRaise": [rng.randrange(1, 60)]} if r < 0.92 else {"PBase": [rng.randrange(60, 90)]}
+    fin = {"PRet": [_val(rng)]} if r < 0.65 else _PR(rng.randrange(1, 60)) if r < 0.92 else {"PBase": [rng.randrange(60, 90)]}
     ops = []
     for _ in range(rng.choice([0, 1, 1, 2])):
         sid[0] += 1
@@ -485,7 +505,7 @@ def _xcls_batch(rng, path, cls):
         else:
             acts = [_outc(rng)] if rng.random() < 0.7 else []
         items.append({"": [subs, acts]})
-    fin = {"PRet": [_val(rng)]} if rng.random() < 0.8 else {"PRaise": [rng.randrange(1, 60)]}
+    fin = {"PRet": [_val(rng)]} if rng.random() < 0.8 else _PR(rng.randrange(1, 60))
     ops = [_on(0, {"OSubscribe": [20, _R(cls) if path == "batch-subscriber" else "CbOk"]})]
     if rng.random() < 0.5:
         ops.append(_on(0, {"OSubscribe": [21, "CbOk"]}))
@@ -509,6 +529,60 @@ def gen_xcls(rng, tier):
     return cs
 
 
+PCLS = XCLASSES + ["PDouble"]      # PDouble: a genuine FutureIsAlreadyComputed about ANOTHER future (shared promise)
+PCLS_PATHS = [(k, o) for k in ("KLazy", "KTask") for o in ("OValue", "OError", "OCall")] + [("KSusp", "body"), ("KBatch", "flush")]
+
+
+def _pcls_case(rng, kind, first, cls):
+    """Provider-class profile: the computation raises an Exception of class `cls` (or is the second resolver of a
+    shared promise); 0..2 subscribers; `first` is the first accessor; then more reads, a late set, sometimes
+    reset_unsafe() and a second computation that raises another class / returns."""
+    def po(c):
+        return "PDouble" if c == "PDouble" else _PR(rng.randrange(1, 60), c)
+
+    def sub_beh():
+        r = rng.random()
+        return "CbOk" if r < 0.6 else _R(_xcls(rng)) if r < 0.85 else {"CbUnsub": [1]}
+    meta = {"malformed": False, "pcls": cls, "path": "provider:%s:%s" % (kind, first)}
+    nsub = rng.choice([0, 1, 1, 2])
+    if kind == "KBatch":
+        items = [{"": [[{"": [i + 1, sub_beh()]}] if rng.random() < 0.5 else [], [_outc(rng)] if rng.random() < 0.7 else []]}
+                 for i in range(rng.choice([1, 2]))]
+        ops = [_on(0, {"OSubscribe": [10 + i, sub_beh()]}) for i in range(nsub)]
+        ops.append(rng.choice([_on(0, "OValue"), _on(0, "OError"), _on(0, "OCall"), _on(1, "OValue"), _on(1, "OError"), "BFlush"]))
+        ops += _batch_follow(rng, len(items), rng.choice([2, 3, 4]))
+        return {"args": ["KBatch", items, po(cls), ops], "meta": meta}
+    ops = [{"OSubscribe": [i + 1, sub_beh()]} for i in range(nsub)]
+    if kind == "KSusp":
+        phases = [{"mkphase": [rng.choice(["ViaFuture", "ViaBatch"]), "CleanOk",
+                               [{"ISubscribe": [5, sub_beh()]}] if rng.random() < 0.3 else [], {"Ok": [_val(rng)]}]}
+                  for _ in range(rng.choice([0, 1, 1, 2]))]
+        ops.append(rng.choice(["OValue", "OError", "OCall"]))
+        for _ in range(rng.choice([2, 3, 4])):
+            ops.append(rng.choice(["OValue", "OError", "OCall", "OIsComputed"]) if rng.random() < 0.85 else {"OSetValue": [_val(rng)]})
+        return {"args": ["KSusp", phases, po(cls), ops], "meta": meta}
+    prov = [po(cls)]
+    ops.append(first)
+    for _ in range(rng.choice([2, 3, 4])):
+        r = rng.random()
+        ops.append(rng.choice(["OValue", "OError", "OCall", "OIsComputed"]) if r < 0.85 else
+                   {"OSetValue": [_val(rng)]} if r < 0.93 else {"OSetError": [rng.randrange(200, 260)]})
+    if rng.random() < 0.35:
+        prov.append(po(rng.choice(PCLS)) if rng.random() < 0.6 else {"PRet": [_val(rng)]})
+        ops += ["OReset", rng.choice(["OValue", "OError", "OCall"]), rng.choice(["OValue", "OError", "OCall"]), "OIsComputed"]
+    return {"args": [kind, prov, {"Ok": ["VNone"]}, ops], "meta": meta}
+
+
+def gen_pcls(rng, tier):
+    """EVERY class (and the genuine second-resolver failure) x EVERY computation kind / first accessor."""
+    cs = []
+    for _ in range(1 if tier == "quick" else 12):
+        for cls in PCLS:
+            for kind, first in PCLS_PATHS:
+                cs.append(_pcls_case(rng, kind, first, cls))
+    return cs
+
+
 def gen_cases(rng, tier):
     n = 400 if tier == "quick" else 6000
     cs = [gen_case(rng, rng.random() < 0.25) for _ in range(n)]
@@ -522,6 +596,10 @@ def gen_cases(rng, tier):
     cs = [_map_case(c, lambda _old: _xcls(rng)) for c in cs]
     cs += gen_xcls(rng, tier)
     cs += [gen_batch(rng) for _ in range(150 if tier == "quick" else 4000)]
+    # Exception class of the PROVIDER / body / flush body (drawn after everything older): every raise of every case
+    # above gets a class of its own, then the class x computation x first-accessor sweep
+    cs = [_map_case(c, lambda cls: cls, lambda _old: _xcls(rng)) for c in cs]
+    cs += gen_pcls(rng, tier)
     for c in cs:
         c["tree"] = c["args"]
     return cs
@@ -533,30 +611,30 @@ def _mk(kind, prov, o0, ops):
 
 
 CORPUS = [
-    _mk("KLazy", [{"PRaise": [7]}], {"Ok": ["VNone"]}, ["OError", "OError", "OValue"]),
-    _mk("KLazy", [{"PRaise": [7]}], {"Ok": ["VNone"]}, [{"OSubscribe": [1, _R()]}, {"OSubscribe": [2, "CbOk"]}, "OValue", "OError"]),
+    _mk("KLazy", [_PR(7)], {"Ok": ["VNone"]}, ["OError", "OError", "OValue"]),
+    _mk("KLazy", [_PR(7)], {"Ok": ["VNone"]}, [{"OSubscribe": [1, _R()]}, {"OSubscribe": [2, "CbOk"]}, "OValue", "OError"]),
     _mk("KLazy", [{"PBase": [61]}, {"PRet": [{"VInt": [4]}]}], {"Ok": ["VNone"]}, ["OValue", "OIsComputed", "OValue", "OValue"]),
-    _mk("KTask", [{"PRaise": [9]}], {"Ok": ["VNone"]}, [{"OSubscribe": [1, "CbOk"]}, "OError", "OValue", "OReset", "OValue"]),
+    _mk("KTask", [_PR(9)], {"Ok": ["VNone"]}, [{"OSubscribe": [1, "CbOk"]}, "OError", "OValue", "OReset", "OValue"]),
     _mk("KTask", [{"PRet": [{"VInt": [3]}]}], {"Ok": ["VNone"]}, [{"OSetValue": [{"VInt": [5]}]}, "OValue", {"OSetError": [201]}, "OReset", "OValue"]),
     _mk("KConst", [], {"Ok": [{"VInt": [3]}]}, [{"OSubscribe": [1, "CbOk"]}, {"OSetValue": ["VNone"]}, "OValue", "OReset", "OValue", {"OSetValue": ["VNone"]}, "OValue"]),
     _mk("KError", [], {"Err": [101]}, ["OError", "OValue", "OCall", {"OSetError": [202]}, "OIsComputed"]),
     _mk("KPlain", [], {"Ok": ["VNone"]}, ["OValue", "OError", {"OSetError": [203]}, "OError", "OValue", {"OSetValue": ["VNone"]}]),
     # an error, reset_unsafe(), then a successful completion (by the provider / by set_value): the new epoch reports the value
-    _mk("KLazy", [{"PRaise": [7]}, {"PRet": [{"VInt": [42]}]}], {"Ok": ["VNone"]}, ["OError", "OReset", "OValue", "OError", "OCall"]),
+    _mk("KLazy", [_PR(7), {"PRet": [{"VInt": [42]}]}], {"Ok": ["VNone"]}, ["OError", "OReset", "OValue", "OError", "OCall"]),
     _mk("KPlain", [], {"Ok": ["VNone"]}, [{"OSetError": [203]}, "OReset", {"OSetValue": [{"VInt": [7]}]}, "OError", "OValue"]),
     # scheduled task cancelled from its batch's flush while suspended; the generator's cleanup raises on close()
     _mk("KSusp", [{"mkphase": ["ViaBatch", {"CleanRaise": [301]}, [{"ISetError": [401]}, {"ISetValue": ["VNone"]}, "IError"], {"Ok": ["VNone"]}]}],
         {"PRet": [{"VInt": [1]}]}, [{"OSubscribe": [1, "CbOk"]}, "OValue", "OError", {"OSetValue": ["VNone"]}]),
     # completed with a value by its dependency's provider; the generator ignores GeneratorExit; a subscriber added while suspended
     _mk("KSusp", [{"mkphase": ["ViaFuture", "CleanYield", [{"ISubscribe": [2, _R("XRuntime")]}, {"ISetValue": [{"VInt": [5]}]}, {"ISubscribe": [3, "CbOk"]}, "ICall"], {"Err": [501]}]}],
-        {"PRaise": [9]}, [{"OSubscribe": [1, "CbOk"]}, "OCall", "OIsComputed", "OReset", "OValue"]),
+        _PR(9), [{"OSubscribe": [1, "CbOk"]}, "OCall", "OIsComputed", "OReset", "OValue"]),
     # two suspensions, nothing completes the task from outside: the failing second dependency does
     _mk("KSusp", [{"mkphase": ["ViaFuture", {"CleanRaiseBase": [341]}, ["IIsComputed", "IValue"], {"Ok": [{"VInt": [2]}]}]},
                   {"mkphase": ["ViaBatch", "CleanOk", [{"ISubscribe": [2, "CbOk"]}], {"Err": [502]}]}],
         {"PRet": ["VNone"]}, [{"OSubscribe": [1, _R()]}, "OError", "OValue", {"OSetError": [204]}]),
     # re-entrant subscribers: a one-shot subscriber (unsubscribes itself in its callback) registered before two plain ones;
     # the second completion (after reset_unsafe) notifies the two that are still registered
-    _mk("KLazy", [{"PRet": [{"VInt": [42]}]}, {"PRaise": [9]}], {"Ok": ["VNone"]},
+    _mk("KLazy", [{"PRet": [{"VInt": [42]}]}, _PR(9)], {"Ok": ["VNone"]},
         [{"OSubscribe": [1, {"CbUnsub": [1]}]}, {"OSubscribe": [2, "CbOk"]}, {"OSubscribe": [3, _R("XKey")]}, "OValue", "OReset", "OError"]),
     # set_error completion; 1 subscribes a new subscriber (not called now), 2 drops the already notified 1, 3 the absent 7
     _mk("KPlain", [], {"Ok": ["VNone"]},
@@ -590,6 +668,15 @@ CORPUS = [
               {"PRet": ["VNone"]},
               [_on(0, {"OSubscribe": [9, _R("XAssertionSub")]}), _on(0, {"OSubscribe": [10, "CbOk"]}), "BCancel", _on(2, "OError"),
                _on(1, "OError"), _on(0, {"OSetValue": ["VNone"]})]], "meta": {"corpus": True}},
+    # Exception class of the PROVIDER: a lazy future whose provider fails with FutureIsAlreadyComputed about ANOTHER
+    # future (it is the second resolver of a shared promise); error() is the first accessor; one subscriber
+    _mk("KLazy", ["PDouble"], {"Ok": ["VNone"]}, [{"OSubscribe": [1, "CbOk"]}, "OError", "OIsComputed", "OValue", "OCall", "OError"]),
+    # the provider raises a FutureIsAlreadyComputed it made itself / a BatchingError; value() first; second epoch
+    _mk("KLazy", [_PR(7, "XAlreadyComputed"), _PR(8, "XBatching")], {"Ok": ["VNone"]},
+        [{"OSubscribe": [1, _R("XAssertion")]}, "OValue", "OError", {"OSetValue": ["VNone"]}, "OReset", "OCall", "OError"]),
+    # a task body that raises StopIteration (PEP 479: the task fails with RuntimeError) / is the second resolver
+    _mk("KTask", [_PR(9, "XStopIteration")], {"Ok": ["VNone"]}, [{"OSubscribe": [1, "CbOk"]}, "OError", "OValue"]),
+    _mk("KTask", ["PDouble"], {"Ok": ["VNone"]}, [{"OSubscribe": [1, "CbOk"]}, "OValue", "OError"]),
 ]
 for _c in CORPUS:
     _c["tree"] = _c["args"]
@@ -646,8 +733,13 @@ def distribution(cases):
          "susp_with_inner_set": 0, "susp_inner_set_under_raising_cleanup": 0,
          "reentrant_profile": 0, "cases_with_reentrant_subscriber": 0, "subscriber_behaviours": {},
          "unsubscribing_subscriber_followed_by_another": 0,
-         "raise_classes": {}, "cases_with_raising_subscriber_by_class": {}, "xcls_profile_paths": {}}
+         "raise_classes": {}, "cases_with_raising_subscriber_by_class": {}, "xcls_profile_paths": {},
+         "provider_raise_classes": {}}
     for c in cases:
+        _map_case(c, lambda cls: cls, lambda cls: (d["provider_raise_classes"].__setitem__(
+            c["args"][0] + ":" + cls, d["provider_raise_classes"].get(c["args"][0] + ":" + cls, 0) + 1), cls)[1])
+        if "PDouble" in (c["args"][1] if c["args"][0] not in ("KSusp", "KBatch") else [c["args"][2]]):
+            d["provider_raise_classes"][c["args"][0] + ":PDouble"] = d["provider_raise_classes"].get(c["args"][0] + ":PDouble", 0) + 1
         seen = set()
         _map_case(c, lambda cls: (seen.add(cls), d["raise_classes"].__setitem__(cls, d["raise_classes"].get(cls, 0) + 1), cls)[2])
         for cls in seen:
@@ -737,7 +829,7 @@ _SEM = {"IIsComputed": "OIsComputed", "ISetValue": "OSetValue", "ISetError": "OS
         "IValue": "OValue", "IError": "OError", "ICall": "OCall"}
 
 
-def _op_checks(label, name, arg, r, pre, post, runs, where):
+def _op_checks(label, name, arg, r, pre, post, runs, where, prov=None):
     """Clauses (a)-(c) of the statement for ONE operation: `pre`/`post` = the future's outcome (None =
     not computed) observed right before / after it, `r` = what it returned or raised, `runs` = how
     often the underlying computation was started during it."""
@@ -783,6 +875,15 @@ def _op_checks(label, name, arg, r, pre, post, runs, where):
                                site="%s:%s:%s-instead-of-%s" % (label, name, _opname(r), _opname(want)),
                                msg="%s on %s reported %s although the future's outcome is %s (%s, computed before=%s)" % (
                                    name, label, r, post, where, pre is not None)))
+        # (b'') a computing accessor that RETURNED or raised an Exception leaves the future computed: value() / error() /
+        # calling the future "compute, if necessary" - afterwards there is an outcome to report.  Not required where
+        # there is no computation to run (FutureBase / Const / ErrorFuture after reset_unsafe: NotImplementedError), where
+        # the computation was observed to raise a BaseException out of a Future's provider, or for reads not issued
+        if sem != "OIsComputed" and post is None and r not in ({"RRaise": [-4]}, {"RRaise": [E_SKIPPED]}) \
+                and not any("Base" in x for x in (prov or [])):
+            fs.append(dict(clause="stable-outcome", site="%s:%s:not-computed-after-%s" % (label, name, _opname(r)),
+                           msg="%s on %s %s %s but the future is still not computed (%s; the computation was observed to "
+                               "end with %s)" % (name, label, "returned" if _opname(r) != "RRaise" else "raised", r, where, prov)))
         # (c) the computation runs at most once per completion
         if pre is not None and runs != 0:
             fs.append(dict(clause="compute-once", site="%s:%s:reran-when-computed" % (label, name),
@@ -808,6 +909,7 @@ class _Epoch:
         self.label = label
         self.exp = initial        # outcome of the current epoch, None while nothing was set
         self.src = "construction"
+        self.ended = []           # how the runs of the underlying computation in this epoch ended (return / Exception)
 
     def op(self, name, arg, r, pre, post, prov, where, label=None):
         label = label or self.label
@@ -815,6 +917,7 @@ class _Epoch:
         fs = []
         if sem == "OReset":
             self.exp = None
+            self.ended = []
         elif sem in ("OSetValue", "OSetError"):
             if self.exp is None and pre is None:
                 self.exp = {"Ok": arg} if sem == "OSetValue" else {"Err": arg}
@@ -822,6 +925,14 @@ class _Epoch:
         elif sem in ("OValue", "OCall", "OError", "OIsComputed"):
             if r == {"RRaise": [E_SKIPPED]}:
                 return fs
+            # "running the underlying computation at most once" between two reset_unsafe(): a run that returned or
+            # raised an Exception is the epoch's one run (a BaseException out of a Future's provider is not)
+            done_now = [x for x in prov if "Base" not in x or self.label in ("KTask", "KSusp")]
+            if done_now and self.ended:
+                fs.append(dict(clause="compute-once", site="%s:%s:ran-again-after-it-ended" % (label, name),
+                               msg="%s on %s ran the underlying computation again (it ended with %s) although it had already "
+                                   "run in this epoch and ended with %s (%s)" % (name, label, done_now, self.ended, where)))
+            self.ended += done_now
             if self.exp is None and pre is None and post is not None:
                 # completed by the underlying computation during this read
                 done = [x for x in prov if "Base" not in x or self.label in ("KTask", "KSusp")]
@@ -891,7 +1002,7 @@ def _susp_monitors(c, io):
             open_top = p
         elif p["lvl"] == "top":
             fs += _op_checks("KSusp", p["op"], _arg(ops[p["i"]]), p["r"], open_top["st"], p["st"],
-                             p["runs"] - open_top["runs"], "op %d" % p["i"])
+                             p["runs"] - open_top["runs"], "op %d" % p["i"])    # (a task body's BaseException is an outcome)
     open_in = None
     for p in pts:
         if p["lvl"] == "in" and p["when"] == "pre":
@@ -1027,13 +1138,21 @@ def monitors(c, io, build):
     for i, (o, r, ob) in enumerate(zip(ops, res, io["obs"])):
         name = _opname(o)
         pre, post = ob["pre"], ob["post"]
-        fs += _op_checks(kind, name, _arg(o), r, pre, post, ob["runs"], "op %d" % i)
+        fs += _op_checks(kind, name, _arg(o), r, pre, post, ob["runs"], "op %d" % i, prov=ob.get("prov", []))
         fs += ep.op(name, _arg(o), r, pre, post, ob.get("prov", []), "op %d" % i)
         # (d) every subscriber notified exactly once per completion, after the outcome is visible
         new = log[nlog_prev:ob["nlog"]]
         completed = pre is None and post is not None
+        ended = [x for x in ob.get("prov", []) if "Base" not in x or kind == "KTask"]
         if completed and kind not in ("KConst", "KError"):
             fs += _notify_check("%s:%s" % (kind, name), post, ob["subs"], new, events, nlog_prev, ob["nlog"], "op %d" % i)
+        elif pre is None and post is None and len(ended) == 1 and kind in ("KLazy", "KTask"):
+            # the underlying computation was observed to return / raise an Exception: that is a completion - every
+            # registered subscriber is owed exactly one notification carrying that outcome
+            x = ended[0]
+            fs += _notify_check("%s:%s:computation-ended" % (kind, name), {"Err": x["Base"]} if "Base" in x else x, ob["subs"],
+                                new, events, nlog_prev, ob["nlog"], "op %d; the computation ended with %s but the future "
+                                "is not computed" % (i, x))
         elif new:
             fs.append(dict(clause="notify-once-after", site="%s:%s:spurious-callback" % (kind, name),
                            msg="callbacks %s fired although op %d (%s) did not complete the future" % (new, i, name)))
@@ -1142,3 +1261,6 @@ def shrink(c):
         return
     if len(prov) > 1:
         yield _case([kind, prov[:-1], o0, ops])
+    for i, po in enumerate(prov):
+        if isinstance(po, dict) and "PRaise" in po and po["PRaise"][0] != "XUser":
+            yield _case([kind, prov[:i] + [_PR(po["PRaise"][1])] + prov[i + 1:], o0, ops])
